@@ -70,18 +70,20 @@ func verifRoundTripLogs(p *Producer, c *Consumer, ld plog.Logs, tag string) {
 	if err != nil {
 		return
 	}
-	out, err := c.LogsFrom(bar)
-	rt.Assert(err == nil, tag+".decode_ok")
-	if err != nil {
-		return
-	}
-	if len(verifFlattenLogs(orig)) == 0 {
-		return
-	}
-	rt.Assert(len(out) == 1, tag+".one_result")
-	if len(out) == 1 {
-		verifCheckLogs(orig, out[0], tag)
-	}
+	verifDecodeStep(func() {
+		out, err := c.LogsFrom(bar)
+		rt.Assert(err == nil, tag+".decode_ok")
+		if err != nil {
+			return
+		}
+		if len(verifFlattenLogs(orig)) == 0 {
+			return
+		}
+		rt.Assert(len(out) == 1, tag+".one_result")
+		if len(out) == 1 {
+			verifCheckLogs(orig, out[0], tag)
+		}
+	})
 }
 
 var verifLogSeq byte
